@@ -744,3 +744,8 @@ def sh_exec(code, ns=None, *a):
     finally:
         sys.modules["io"], sys.modules["struct"] = saved
     ns.update(INJECT)
+    # lookup tables of generated code (Enum/Mapping factories, Switch case tables): symbolic lookups fork per key
+    from .tables import SymDict
+    for k, v in list(ns.items()):
+        if type(v) is dict and not k.startswith("__") and k not in ("linkedinstances", "linkedparsers", "linkedbuilders", "userfunction"):
+            ns[k] = SymDict(v)
